@@ -17,6 +17,7 @@ PLAN = {
         ("c3x1", 2, "line", 1), ("c22", 2, "line", 1), ("c3", 3, "line", 1),
         ("x3x1", 2, "line", 1), ("x22", 2, "line", 1), ("x3", 16, "line", 1),
         ("c3p", 2, "line", 1), ("x3p", 2, "line", 1), ("c3nt", 2, "line", 1),
+        ("c3x1@reuse", 2, "line", 0), ("c22@reuse", 2, "line", 0),
         ("c8", 1, "line", 0), ("c8", 2, "line", 0), ("x8", 2, "line", 0),
         ("c3", 2, "instruction", 1), ("x3", 2, "instruction", 1),
         ("c3x1", 1, "line", 1),
@@ -41,6 +42,7 @@ PLAN = {
         ("c3", 3, "line", 2), ("x3", 3, "line", 2),
     ] + [
         ("x3big", 2, "line", 0), ("c3big", 2, "line", 0), ("x1300", 2, "line", -1), ("c1300", 3, "line", -1), ("x1300", 16, "line", -1),
+        ("c3x1@reuse", 2, "line", 1), ("c22@reuse", 3, "line", 1), ("c2x2@reuse", 2, "line", 1), ("c3@reuse", 2, "line", 1),
     ],
 }
 SHARDS = {"quick": 8, "thorough": 32}
@@ -67,17 +69,37 @@ def describe(tier):
 _expected = {}
 
 
+def _change_first_dimension(cube):
+    """In-place changes of the first index dimension of a cube that has already been evaluated: re-expression under another common value and one
+    cell given another value (a cube holds its dimensions, not a snapshot)."""
+    import numpy
+
+    ix = cube.dims[0]
+    ix.shift_common(next(v for v in (2, 1, 0) if v != ix.common))
+    col = (0,) * (len(ix.shape) - 1)
+    ix.update({(1,) + col: numpy.array([0], dtype=numpy.uint32), (0,) + col: numpy.array([1], dtype=numpy.uint32)})
+
+
+def _run(hname, parallel, w=None):
+    base = hname.split("@")[0]
+    cube, funcs = harness.make(base, parallel=parallel, poolsize=w)
+    out = cube.calculate(funcs)
+    if hname.endswith("@reuse"):
+        # the SAME cube and function objects evaluated again after its first dimension was changed in place
+        _change_first_dimension(cube)
+        out = cube.calculate(funcs)
+    return out
+
+
 def expected(hname):
     if hname not in _expected:
-        cube, funcs = harness.make(hname, parallel=False)
-        _expected[hname] = harness.freeze(cube.calculate(funcs))
+        _expected[hname] = harness.freeze(_run(hname, False))
     return _expected[hname]
 
 
 def body_for(hname, w):
     def body():
-        cube, funcs = harness.make(hname, parallel=True, poolsize=w)
-        return cube.calculate(funcs)
+        return _run(hname, True, w)
 
     return body
 
